@@ -274,10 +274,16 @@ func ruleC20SortSource(c *Ctx) {
 	for _, b := range fn.Blocks {
 		for _, in := range b.Instrs {
 			fa, ok := in.(*ssa.FieldAddr)
-			if !ok || fa.X != recv {
+			if !ok {
 				continue
 			}
-			f, _ := fieldOfAddr(fa)
+			f, base := fieldOfAddr(fa)
+			if base != recv {
+				continue
+			}
+			if f != nil && f.Embedded() && onlyFieldAddrUsers(fa) {
+				continue // the embedded part is only the way to a promoted field, seen on its own
+			}
 			if sameVar(f, sortBy) {
 				readsSortBy = true
 			} else if f != nil {
@@ -1442,4 +1448,21 @@ func ruleC20ValidatorFlag(c *Ctx, vsh *validatorShape, fn *ssa.Function) {
 	c.Check(okDrv, "C20.VALIDATOR", "boltz.ValidateSymbolsArePublic", p.Pos(drv.Pos()), "traverses the query with the validator and returns its latched error", why)
 	ruleC20IsPublicSymbol(c)
 	c.Floor("C20.VALIDATOR", 5)
+}
+
+// onlyFieldAddrUsers: the address of an embedded part is used only to address fields inside it.
+func onlyFieldAddrUsers(fa *ssa.FieldAddr) bool {
+	refs := fa.Referrers()
+	if refs == nil || len(*refs) == 0 {
+		return false
+	}
+	for _, r := range *refs {
+		if _, ok := r.(*ssa.FieldAddr); !ok {
+			if _, dbg := r.(*ssa.DebugRef); dbg {
+				continue
+			}
+			return false
+		}
+	}
+	return true
 }
